@@ -388,11 +388,7 @@ def buffer_type(ctx, F, fbt):
         n = N(rt) if rt is not None else None
         rself = deref(arg(1))
         ok8 = n is not None and is_elem_read(n, fld(rself, 0), fld(rself, 1))
-        w = []
-        for bb in sorted(R.body.reachable):
-            for si, st in enumerate(R.body.stmts(bb)):
-                if st["k"] == "assign" and st["lhs"]["l"] == 1 and st["lhs"].get("p"):
-                    w.append(N(R.tb.rvalue(st["rv"], (bb, si), st)))
+        w = [N(v) for (_bb, _si, _n, v) in an.writes_through(R, 1)]
         ok8 = ok8 and w == [("bin", "Add", fld(rself, 1), ("c", 1))]
         ctx.check(ok8, "G6", "Reader::read_next_u8", "read_next_u8() returns buffer.get(off) (bounds-checked, panics if unavailable) and advances off by 1", r8[0].get("span", ""),
                   how=G.show(rt)[:120], why=G.show(rt)[:200] + str(w))
